@@ -121,6 +121,40 @@ def check_history(chk, case, res, resumed=False):
             chk.fail("recorded variance equals its definition", case, f"iteration {t + 1}: {rec['var'][t]!r} vs {v!r}", {**sig, "clause": "var"})
         if t < len(rec["ess_target"]) and not core.close(rec["ess_target"][t], e1, 1e-6 * max(scale, top + 1)):
             chk.fail("recorded target ESS equals its definition", case, f"iteration {t + 1}: {rec['ess_target'][t]!r} vs {e1!r}", {**sig, "clause": "ess_target"})
+    # each recorded TEMPERATURE equals its definition: on a fixed ladder the next grid point above the previous temperature; on an adaptive
+    # schedule without any floor option the ESS-limited one (meets the target in force, maximal within the tolerance), or 1
+    te0 = full["target_efficiency"]
+    if its and len(rec["pops"]) == its + 1:
+        from .c07 import eff_np
+        tol_b = 1e-6
+        for t in range(its):
+            b0, b1, pop = betas[t], betas[t + 1], rec["pops"][t]
+            if not full["adaptive"]:
+                n_ = full["n_steps"]
+                exp_b = min(1.0, (round(b0 * n_) + 1) / n_)
+                if abs(b1 - exp_b) > 1e-12:
+                    chk.fail("recorded temperature equals its definition", case, f"iteration {t + 1} of a fixed ladder of {n_}: {b0!r} -> {b1!r}, the next grid point is {exp_b!r}",
+                             {**sig, "clause": "temperature", "schedule": "fixed"})
+                    break
+            elif full["min_step"] is None and full["max_n_steps"] is None:
+                target = te0 if isinstance(te0, float) else te0[0] + (te0[1] - te0[0]) * b0 ** full["target_efficiency_rate"]
+                e_full = eff_np(pop, b0, 1.0)
+                if e_full >= target + 1e-7:
+                    if b1 != 1.0:
+                        chk.fail("recorded temperature equals its definition", case, f"iteration {t + 1}: {b0} -> {b1} although the full step meets the target ({e_full:.6f} >= {target:.6f})",
+                                 {**sig, "clause": "temperature", "schedule": "adaptive"})
+                        break
+                    continue
+                if b1 == 1.0 and e_full >= target - 1e-7:
+                    continue
+                if eff_np(pop, b0, min(1.0, b0 + tol_b)) < target - 1e-7:
+                    continue        # no resolvable step: the smallest one is taken
+                e1, e2 = eff_np(pop, b0, b1), eff_np(pop, b0, min(1.0, b1 + 4 * tol_b))
+                if e1 < target - 1e-6 or (e2 >= target + 1e-6 and b1 < 1.0):
+                    chk.fail("recorded temperature equals its definition", case,
+                             f"iteration {t + 1}: {b0} -> {b1}: ESS/N there {e1:.6f}, at beta + 4 tol {e2:.6f}, target in force {target:.6f} (no floor option was given)",
+                             {**sig, "clause": "temperature", "schedule": "adaptive"})
+                    break
     te = full["target_efficiency"]
     for t in range(min(its, len(rec["eff_target"]))):
         exp = te if isinstance(te, float) else te[0] + (te[1] - te[0]) * rec["beta"][t] ** full["target_efficiency_rate"]
@@ -213,6 +247,16 @@ def run_one(chk, cfg, mode, drv_lines, keep, with_resume):
             chk.fail("resumed run total", c2, repr(r2.get("exc")), {"clause": "raise", "resumed": True})
             continue
         check_history(chk, c2, r2, resumed=True)
+        last_resumed = r2
+    # the object that CONTINUED this run is used for a fresh run without the floor options of the first one: its record is the record of
+    # a run in which no floor is in force
+    if (cfg.get("min_step") is not None or cfg.get("max_n_steps") is not None) and "last_resumed" in locals() and res["cfg"]["sampler"] == "minipcn_smc":
+        cfg_f = {k: v for k, v in cfg.items() if k not in ("min_step", "max_n_steps", "checkpoint_every")}
+        cfg_f["seed"] = int(cfg["seed"]) + 13
+        r8 = smcrun.run_smc(cfg_f, reuse=last_resumed)
+        chk.count("fresh_run_on_an_object_that_resumed")
+        if r8["status"] == "done":
+            check_history(chk, {"cfg": cfg_f, "mode": mode, "same_object_first_resumed": cfg}, r8)
     import shutil
     shutil.rmtree(tmp, ignore_errors=True)
 
